@@ -55,7 +55,18 @@ var _ merger.TypeURLMap
 //@ func (*CachedPlanner).hash
 //@ props C14
 //@ requires ctx != nil && ctx.Operation != nil
+// the formatter renders a fragment spread as its name and body; the type condition of the fragment decides what is
+// planned for it, so the key has to cover it as well (B29)
+//@ ensures[covers-fragment-type-conditions] lastcalled(fragmentTypeConditions) && sameslice(lastarg(fragmentTypeConditions, 0), ctx.Operation.SelectionSet) @props C14
 //@ modifies-assumed fresh
+//@ end
+
+//@ func fragmentTypeConditions
+//@ props C14 C07
+//@ ensures[names-type-conditions] forall(i, 0, len(selectionSet), is(selectionSet[i], *ast.FragmentSpread) ==> contains(result, selectionSet[i].(*ast.FragmentSpread).Definition.TypeCondition)) @using named @props C14
+//@ modifies fresh
+//@ loop 0 modifies fresh
+//@ loop 0 invariant[named] forall(i, 0, it, is(selectionSet[i], *ast.FragmentSpread) ==> contains(s, selectionSet[i].(*ast.FragmentSpread).Definition.TypeCondition)) @using named
 //@ end
 
 //@ func (*CachedPlanner).clean
